@@ -81,3 +81,14 @@ func TestVerifC01Faults(t *testing.T) {
 	}
 	quicworld.RunSuite(t, l, cases, c01Report(l))
 }
+
+// The same oracle under the race detector (the runner builds this job with -race): fewer cases,
+// all scenarios, so that retransmission, reassembly, flow control and close paths of both endpoints
+// run concurrently with the application goroutines while the detector watches.
+func TestVerifC01FaultsRace(t *testing.T) {
+	l := evlog.Open("C01")
+	defer l.Close()
+	clients := []quicworld.ClientSel{{Client: "plain"}, {Client: "plain", V2: true}, {Client: "Chrome_115_IPv4"}, {Client: "Firefox_116A"}}
+	cases := quicworld.FaultSuite(l, clients, nil, 0, l.Pick(60, 1500), l.Pick(40, 1000), l.Pick(40, 1000))
+	quicworld.RunSuite(t, l, cases, c01Report(l))
+}
